@@ -15,6 +15,7 @@ from ..pathsem import feasible, function_paths, resolve_local
 from .. import rx
 
 from .c08 import items_to_ints_func  # noqa: E402
+from .common import deep_resolve  # noqa: E402
 
 PROPERTY = "C09"
 LEVEL = "exploration"
@@ -520,6 +521,7 @@ def run(ctx: Ctx, rep: Report, tier: str) -> None:  # noqa: C901
     rep.rule("R09.9")
     _token_gates(ctx, rep, self_reach(pi), sorted(set(need)))
 
+    renderer_falls_back(ctx, rep)
     # ---------------------------------------------------------------- R09.7 switches are render-only
     rep.rule("R09.7")
     _r09_7(ctx, rep)
@@ -629,6 +631,59 @@ def protocol_reader_writer(ctx: Ctx, rep: Report, prot_tables=None, platforms=No
     return setter
 
 
+def renderer_falls_back(ctx: Ctx, rep: Report, rid: str = "R09.10") -> None:
+    """What the protocol renderer returns is never empty: a path that returns the looked-up name has tested that the
+    lookup found one; every other path returns the number (an empty protocol field is read back as ip, number 0)."""
+    from .normalise import normalised
+
+    rep.rule(rid)
+    g0 = ctx.func("Protocol.line.getter")
+    g = normalised(ctx, g0, "ifexp")
+    cfg = ctx.cfg(g)
+    n = 0
+    for p in function_paths(cfg):
+        if p.raises or p.ret is None:
+            continue
+        n += 1
+        rep.instance()
+        r = p.ret
+        while isinstance(r, ast.Call) and isinstance(r.func, ast.Name) and r.func.id == "str" and len(r.args) == 1:
+            r = r.args[0]
+        full = deep_resolve(r, p.env) or r
+
+        def numeric(e: ast.AST) -> bool:
+            t = src(deep_resolve(e, p.env) or e)
+            return "_number" in t and "NR_TO" not in t and ".get(" not in t and "[" not in t
+
+        if numeric(r):
+            rep.ok(f"Protocol.line getter: return {snippet(p.ret, 30)}", "the number", where=where(g0))
+            continue
+        if isinstance(r, ast.BoolOp) and isinstance(r.op, ast.Or) and numeric(r.values[-1]):
+            rep.ok(f"Protocol.line getter: return {snippet(p.ret, 30)}", "the name, or the number when there is none", where=where(g0))
+            continue
+        if isinstance(full, ast.Constant) and isinstance(full.value, str) and full.value:
+            rep.ok(f"Protocol.line getter: return {snippet(p.ret, 30)}", "a non-empty constant", where=where(g0))
+            continue
+        guarded = False
+        for test, truth in p.atoms:
+            t = test
+            names = set()
+            if isinstance(t, ast.NamedExpr) and isinstance(t.target, ast.Name):
+                names.add(t.target.id)
+            if isinstance(t, ast.Name):
+                names.add(t.id)
+            if truth and ((isinstance(r, ast.Name) and r.id in names) or src(t) == src(r) or src(deep_resolve(t, p.env) or t) == src(full)):
+                guarded = True
+            if not truth and isinstance(t, ast.UnaryOp) and isinstance(t.op, ast.Not) and ((isinstance(r, ast.Name) and src(t.operand) == r.id) or src(t.operand) == src(r)):
+                guarded = True
+        if guarded:
+            rep.ok(f"Protocol.line getter: return {snippet(p.ret, 30)}", "the looked-up name, tested non-empty on this path", where=where(g0))
+        else:
+            held = "; ".join(f"{snippet(t_, 30)}{'' if tr_ else ' (false)'}" for t_, tr_ in p.atoms)
+            rep.violation("Protocol.line.getter", f"return {snippet(p.ret, 40)} under [{held}]", "the looked-up name is returned without a test that the lookup found one: for a number that has no name on this platform the protocol field is rendered empty and read back as ip", where(g0), inp="Protocol('tcp', has_port=True); p.number = 200; p.line == ''")
+    rep.floor(2, "paths of Protocol.line getter") if n else None
+
+
 def _token_gates(ctx: Ctx, rep: Report, funcs: List[Func], names: List[str]) -> None:
     """A token that is not a number is accepted exactly when the name table has it: any other test of the token in the
     reader must let every name of the tables through (it is evaluated here on each of them), otherwise a name the
@@ -660,6 +715,19 @@ def _token_gates(ctx: Ctx, rep: Report, funcs: List[Func], names: List[str]) -> 
             n_lookup += 1
             look_nodes = [cfg.node_containing(x) for x in lookups]
             look_nodes = [x for x in look_nodes if x is not None]
+            # the table that is asked is the name table on every path: no other binding of the table variable (an
+            # empty dict kept "when no name is expected") reaches the lookup
+            for tv in sorted(tables):
+                def_nodes = [m for m in cfg.live if m.kind in ("stmt", "cond") and m.ast is not None and any(isinstance(y, ast.Name) and y.id == tv and isinstance(y.ctx, ast.Store) for y in ast.walk(m.ast))]
+                for dn in def_nodes:
+                    if any(isinstance(x, ast.Call) and isinstance(x.func, ast.Attribute) and x.func.attr == "names" for x in ast.walk(dn.ast)):
+                        continue
+                    others = [m for m in def_nodes if m is not dn]
+                    reach = cfg.reachable(dn, avoid=lambda m, others=others: m in others, labels_avoid=("exc",))
+                    hit = [ln for ln in look_nodes if ln in reach and any(isinstance(y, ast.Name) and y.id == tv for y in ast.walk(ln.ast))]
+                    if hit:
+                        rep.instance()
+                        rep.violation(g.qualname, f"{snippet(dn.ast, 40)} ... {snippet(hit[0].ast, 40)}", f"on some path the token is looked up in `{tv}` as bound here, not in the name table: a name that follows a number (the order the writer produces: `eq 22 telnet`) is refused", where(g, dn.ast), inp="Port('eq 22 telnet', protocol='tcp')")
             for c in cfg.live:
                 if c.kind != "cond" or c.ast is None:
                     continue
